@@ -13,3 +13,19 @@ Definition demo_pages : list page :=
     {| pg_off := 306; pg_len := 100; pg_serial := 2; pg_gran := 0; pg_bos := false; pg_eos := false; pg_cont := false; pg_pkts := [h (-1); h 0] |};
     {| pg_off := 406; pg_len := 40; pg_serial := 2; pg_gran := 128; pg_bos := false; pg_eos := true; pg_cont := false; pg_pkts := [a false (-1) false; a false (-1) false; a false 128 true] |} ].
 Definition demo : vfs := open_file demo_pages [(1, 64, 512); (2, 256, 256)] 0.
+
+(* a single link with enough blocks for sample seeks: short/long blocks of 64/512, granule positions on the
+   last packet completed on each page, end-of-stream packet alone on the last page *)
+Definition demo2_pages : list page :=
+  let a w g e := {| pk_W := Some w; pk_gran := g; pk_eos := e |} in
+  let h g := {| pk_W := None; pk_gran := g; pk_eos := false |} in
+  let pgm off g pk := {| pg_off := off; pg_len := 40; pg_serial := 7; pg_gran := g; pg_bos := false; pg_eos := false; pg_cont := false; pg_pkts := pk |} in
+  [ {| pg_off := 0; pg_len := 58; pg_serial := 7; pg_gran := 0; pg_bos := true; pg_eos := false; pg_cont := false; pg_pkts := [h 0] |};
+    {| pg_off := 58; pg_len := 100; pg_serial := 7; pg_gran := 0; pg_bos := false; pg_eos := false; pg_cont := false; pg_pkts := [h (-1); h 0] |};
+    pgm 158 32 [a false (-1) false; a false 32 false];
+    pgm 198 64 [a false 64 false];
+    pgm 238 240 [a false (-1) false; a true 240 false];
+    pgm 278 496 [a true 496 false];
+    pgm 318 672 [a false (-1) false; a false 672 false];
+    {| pg_off := 358; pg_len := 40; pg_serial := 7; pg_gran := 700; pg_bos := false; pg_eos := true; pg_cont := false; pg_pkts := [a false 700 true] |} ].
+Definition demo2 : vfs := open_file demo2_pages [(7, 64, 512)] 0.
